@@ -832,7 +832,7 @@ struct EncOp
 };
 // E10 / E11 differ from E0 / E4 in the protocol version ONLY (same context, type and batch shape), so that
 // anything cached under a key that forgets the version collides
-static const std::vector<EncOp> kOps = {{'D', 1}, {'D', 0x0203}, {'S', 1}, {'S', 7}, {'R', 0}, {'E', 0}, {'E', 1}, {'E', 2}, {'E', 3}, {'E', 4}, {'E', 5}, {'E', 10}, {'E', 11}};
+static const std::vector<EncOp> kOps = {{'D', 1}, {'D', 0x0203}, {'S', 1}, {'S', 7}, {'R', 0}, {'E', 0}, {'E', 1}, {'E', 2}, {'E', 3}, {'E', 4}, {'E', 5}, {'E', 10}, {'E', 11}, {'E', 12}};
 
 // the (batch, context) pairs; 0..5 are the C09 alphabet, 6..9 additional finals of C10
 static CaseSpec encodeArg(int k)
@@ -849,6 +849,7 @@ static CaseSpec encodeArg(int k)
         case 6: c.mn = 0; c.mx = 40; c.b = {gen(1, 33, 0), gen(1, 3, 1), gen(1, 4, 2)}; break;   // starts with a segmenting packet
         case 7: c.mn = 0; c.mx = 100; c.b = {gen(3, 8, 0), gen(3, 9, 1)}; break;                  // status only
         case 8: c.mn = 0; c.mx = 100; c.b = {gen(1, 8, 0), gen(1, 9, 1)}; break;                  // data only
+        case 12: c.mn = 0; c.mx = 1500; c.b = {gen(1, 16, 0), gen(3, 0, 1), gen(1, 16, 2)}; break;   // a zero-length payload between two type changes (emits no message)
         case 10: c.mn = 0; c.mx = 1500; c.ver = 2; c.b = {gen(1, 6, 0)}; break;       // E0 with another version
         case 11: c.mn = 0; c.mx = 64; c.ver = 1; c.b = {gen(3, 11, 0)}; break;          // E4 with another version
         default: c.mn = 30; c.mx = 48; c.b = {gen(0xFF, 25, 0), gen(1, 24, 1), gen(1, 2, 2)}; break;
@@ -910,6 +911,8 @@ static std::vector<Bytes> applyOp(W& w, HistState& s, const EncOp& o, bool judge
                     w.fail("frame-header:stream-id", fmt("frame %zu carries stream 0x%x, configured 0x%x", fi, wk.fh.stream, s.str));
                 for (auto& m : wk.msgs)
                 {
+                    while (pi < b.eff.size() && b.eff[pi].len == 0)
+                        ++pi;   // a zero-length payload emits no message
                     if (pi >= b.eff.size())
                         break;
                     if (wk.fh.msgType != b.eff[pi].mt)
@@ -1091,12 +1094,10 @@ static void dfs10(W& w, const HistState& s, std::vector<int>& path, int target)
 {
     if ((int) path.size() == target)
     {
-        for (int fin = 0; fin < 13; ++fin)
+        for (int fin = 0; fin < 14; ++fin)
         {
-            int fa = fin < 10 ? fin : fin - 1 + 1;
-            if (fin == 10 || fin == 11)
-                fa = fin;          // the version-only variants
-            if (fin == 12)
+            int fa = fin;          // 0..9 finals, 10/11 the version-only variants, 12 the zero-length-payload batch
+            if (fin == 13)
             {
                 // the same batch as the last encode of the history
                 fa = -1;
@@ -1201,7 +1202,7 @@ int main(int argc, char** argv)
     if (prop == "C09")
     {
         const int depth = thorough ? 7 : 5;
-        run.rule = "every history over the 13-op alphabet {setDeviceId x2, setStreamId x2, restart, encode x8 (batch,context,version) triples, two of which differ from another one in the version only} up to the "
+        run.rule = "every history over the 14-op alphabet {setDeviceId x2, setStreamId x2, restart, encode x9 (batch,context,version) triples, two of which differ from another one in the version only, one with a zero-length payload between two type changes} up to the "
                    "stated depth as a tree of copied real Encoder objects, every prefix judged by the counter/identity model; distinct = distinct "
                    "(frame structure of the last call, last counter, identity) outcomes";
         run.extra.push_back({"depth", mc::Json::num(depth)});
